@@ -741,6 +741,9 @@ func zzDump(w *strings.Builder, path string, v reflect.Value, depth int) {
 			return
 		}
 		fmt.Fprintf(w, "%s=ptr\n", path)
+		if !v.CanInterface() {
+			return
+		}
 		if it, ok := v.Interface().(*astikit.BytesIterator); ok {
 			fmt.Fprintf(w, "%s.offset=%d\n", path, it.Offset())
 			return
